@@ -123,6 +123,9 @@ harnesses! {
     fn c06_t_remove_amino [10] { remove!(Amino, oracle::AMINO, 21, 9, 4, 1..3, 1, 3) }
     fn c06_t_remove_miupac [10] { remove!(masked::Iupac, oracle::MIUPAC, 25, 11, 4, 1..2, 1, 2) }
     fn c06_t_remove_dna_l34 [10] { remove!(Dna, oracle::DNA, 64, 0, 34, 30..33, 30, 33) }
+    // a removed region of exactly one storage word (32 Dna / 16 Iupac symbols) that does not start on a word boundary
+    fn c06_q_remove_dna_one_word_unaligned [70] { remove!(Dna, oracle::DNA, 64, 3, 40, 5..37, 5, 37) }
+    fn c06_t_remove_iupac_one_word_unaligned [70] { remove!(Iupac, oracle::IUPAC, 32, 1, 20, 3..19, 3, 19) }
     // ---- truncate / clear / extend
     fn c06_q_truncate [10] {
         setup!(Dna, 64, 3, 6, 6, w, src, s);
